@@ -2,6 +2,7 @@ import PyCraft.Props.C01
 import PyCraft.Props.C01Dispatch
 import PyCraft.Props.C01DispatchLive
 import PyCraft.Props.C01Buffer
+import PyCraft.Props.C01BufferFrame
 #print axioms PyCraft.C01.frameSends_flatten
 #print axioms PyCraft.C01.read_segmentation_invariant
 #print axioms PyCraft.C01.read_bytewise
@@ -47,3 +48,7 @@ import PyCraft.Props.C01Buffer
 #print axioms PyCraft.C01Buffer.read_all
 #print axioms PyCraft.C01Buffer.reset_fresh
 #print axioms PyCraft.C01Buffer.send_after_rewind_overwrites
+#print axioms PyCraft.C01BufferFrame.loop_sees_prefixes
+#print axioms PyCraft.C01BufferFrame.read_packet_plain
+#print axioms PyCraft.C01BufferFrame.reads_state
+#print axioms PyCraft.C01BufferFrame.read_packet_compressed
